@@ -95,7 +95,7 @@ def main():
         "setup_cmd": "./setup.sh",
         "hooks": {
             "guard": "verif",
-            "enable": "go build -tags verif (harness module with replace => /repo); gofail failpoint comments are inert until `gofail enable` rewrites a scratch copy",
+            "enable": "nothing to enable: no instrumentation was added to /repo (observation through existing interfaces, harness-supplied wrappers and reflection); the tag is reserved",
             "baseline_off_cmd": "cd /repo && go test -mod=mod -vet=off -count=1 -timeout 25m ./...",
             "source_commits": hooks_commits,
             "add_only": True,
